@@ -304,6 +304,7 @@ def deserialize_address(address, encoding=None, network=None):
     if encoding == 'bech32' or encoding is None:
         try:
             pkh_incl = addr_bech32_to_pubkeyhash(address, include_witver=True)
+            address = address.lower()
             public_key_hash = pkh_incl[2:]
             witver = pkh_incl[0] - 0x50 if pkh_incl[0] else 0
             prefix = address[:address.rfind('1')]
